@@ -19,6 +19,8 @@ VARIANTS = {
     "asan": "-O1 -g -fsanitize=address,undefined -fno-sanitize=null,bool,enum,vptr,alignment,object-size -fno-sanitize-recover=all -fno-omit-frame-pointer -D%s" % GUARD,
     # exhaustive sweeps, PCM renders
     "plain": "-O2 -g -D%s" % GUARD,
+    # data races between instances (C14)
+    "tsan": "-O1 -g -fsanitize=thread -fno-omit-frame-pointer -D%s" % GUARD,
 }
 
 
